@@ -224,7 +224,7 @@ PROPS["C06"] = dict(
           "Non-trivial: at least two state-changing steps and, if a fault is attached, it fired. Distinct: distinct run digests."),
     probes=["swap_in_place_with_heap", "self_swap_in_place", "self_swap_heap", "self_swap_empty", "swap_same_type_in_place", "swap_same_type_heap", "swap_empty_with_nonempty",
             "assignment_fault_with_nonempty_target", "cast_with_cv_qualified_type", "cast_with_other_type", "moved_from_object_reused", "moved_from_observed",
-            "copy_mutated_independently", "constructor_threw", "self_copy_assignment", "self_move_assignment", "value_assignment_from_own_content", "array_cast_on_pointer_payload"],
+            "copy_mutated_independently", "constructor_threw", "self_copy_assignment", "self_move_assignment", "value_assignment_from_own_content", "array_cast_on_pointer_payload", "assigned_from_any_inside_own_content"],
     components=dict(real=["include/xtl/xany.hpp (any, any_cast in pointer/reference/value/rvalue forms, swap, vtables for in-place and heap storage)"],
                     stub=["lifetime-tracked payload types with a fault point in every copy/move", "replaced global operator new/delete (allocation failure as a fault point)", "dirty, red-zoned arena memory under every any"]),
     assumptions=["a moved-from any may be empty or still hold an object of the same type; both are accepted as 'valid to query, assign or destroy'",
